@@ -3733,12 +3733,16 @@ fn parse_sequence_keys(exprs: &[SExpr], s: &ParserState) -> Result<Vec<u16>> {
                                     seq.push(KEY_OVERLAP_MARKER);
                                 }
                                 if do_release_mod {
-                                    mods_currently_held.remove(
-                                        mods_currently_held
-                                            .iter()
-                                            .position(|modk| modk == released)
-                                            .expect("had to be pressed to be released"),
-                                    );
+                                    let Some(pos) =
+                                        mods_currently_held.iter().position(|modk| modk == released)
+                                    else {
+                                        // e.g. `C-S-()`: the innermost modifier prefix has nothing to modify
+                                        bail_expr!(
+                                            &exprs_remaining[0],
+                                            "A modifier prefix in a sequence must be followed by a key or a non-empty list."
+                                        );
+                                    };
+                                    mods_currently_held.remove(pos);
                                 }
                                 // release->release: next release is mod
                                 do_release_mod = matches!(key_actions.peek(), Some(Release(..)));
